@@ -556,7 +556,7 @@ Choose(int cur)
             std::string c = G.th[i].call;
             labels += c.substr(0, c.find('@'));
           }
-        RecordViolation("C02", "DEADLOCK:" + labels,
+        RecordViolation(G.scn->deadlock_props, "DEADLOCK:" + labels,
                         "no thread can make progress:" + DescribeStuck(), true);
         FatalStop();
       }
@@ -897,7 +897,7 @@ pre(const Op &op_in)
   Op op = op_in;
   op.site = __builtin_return_address(0);
   if (++G.steps > static_cast<uint64_t>(G.cfg.max_steps)) {
-    RecordViolation("C02", "HORIZON", "execution exceeded the step horizon:" + DescribeStuck(), true);
+    RecordViolation(G.scn->deadlock_props, "HORIZON", "execution exceeded the step horizon:" + DescribeStuck(), true);
     FatalStop();
   }
   if (G.scn->on_point) G.scn->on_point(t.id);
